@@ -66,6 +66,26 @@ fn histories<'a>(env: &'a Env, thorough: bool) -> Vec<History<'a>> {
         let (sc, regs) = mk_index(0, 1, 5);
         v.push(History { name: format!("set_scripts-partial@12/{}", sc.name), sc: Box::new(sc), devs: vec![(12, Dev::SetScripts(1, 0))], regs, final_chain: 0 });
     }
+    if thorough {
+        // set_scripts all / delete at several moments of the sync (matched blocks pending, partly
+        // downloaded, after indexing)
+        // (the command re-registers the first script with the block number it currently reports:
+        // `all` leaves only that script, `delete` removes it, `partial` changes nothing)
+        for (step, cmd, label) in [(8usize, 0u8, "all"), (12, 2, "delete"), (16, 1, "partial"), (20, 0, "all")] {
+            let (sc, regs) = mk_index(0, 1, 3);
+            let regs: Vec<Reg> = match cmd {
+                0 => vec![regs[0].clone()],
+                2 => regs[1..].to_vec(),
+                _ => regs,
+            };
+            v.push(History { name: format!("set_scripts-{}@{}/{}", label, step, sc.name), sc: Box::new(sc), devs: vec![(step, Dev::SetScripts(cmd, 0))], regs, final_chain: 0 });
+        }
+        // small filter batches (several matched-blocks records in the store at once)
+        for (wi, si) in [(1usize, 1usize), (2, 0)] {
+            let (sc, regs) = mk_index(wi, si, 2);
+            v.push(History { name: format!("sync/{}", sc.name), sc: Box::new(sc), devs: vec![], regs, final_chain: 0 });
+        }
+    }
     // H-fetch: fetch_transaction + fetch_header in the middle of the sync
     {
         let (sc, regs) = mk_index(0, 0, 5);
@@ -74,9 +94,9 @@ fn histories<'a>(env: &'a Env, thorough: bool) -> Vec<History<'a>> {
     // H-fork: full sync of the old branch, then a switch to a fork within last-N (rollback)
     // (last-N 3 and growth >= 3: a restart may add one block to the old branch, the fork must stay
     // within last-N and the new branch must stay heavier)
-    for (depth, growth) in if thorough { vec![(1u64, 3u64), (2, 4), (1, 5)] } else { vec![(1u64, 3u64), (2, 4)] } {
-        let (sc, regs) = c04::scenario(env, 3, depth, growth, 1);
-        v.push(History { name: format!("fork/depth{}/growth{}", depth, growth), sc: Box::new(sc), devs: vec![], regs, final_chain: 1 });
+    for (depth, growth, set) in if thorough { vec![(1u64, 3u64, 1usize), (2, 4, 1), (1, 5, 1), (1, 3, 3), (2, 5, 3), (2, 6, 0)] } else { vec![(1u64, 3u64, 1usize), (2, 4, 1)] } {
+        let (sc, regs) = c04::scenario(env, 3, depth, growth, set);
+        v.push(History { name: format!("fork/depth{}/growth{}/set{}", depth, growth, set), sc: Box::new(sc), devs: vec![], regs, final_chain: 1 });
     }
     v
 }
